@@ -169,6 +169,17 @@ def execute(scenario):
                         kind="priced_at_later_quote" if later else "priced_at_stale_quote")
                     break
                 probe("trade_priced")
+                # the execution is not stamped earlier than a quote of the latency window that priced one of its trades
+                # (that quote was applied *before* it)
+                t_best = core.parse_t(best["t"]) if isinstance(best["t"], str) else best["t"]
+                t_exec = reb["time"]
+                t_exec = t_exec.to_pydatetime() if hasattr(t_exec, "to_pydatetime") else t_exec
+                if us(t_best) > us(steps[k]) and getattr(t_exec, "tzinfo", None) is None:
+                    probe("trade_priced_at_a_quote_of_the_latency_window")
+                    if us(t_exec) < us(t_best):
+                        violate("execution_stamp", "step {}: the execution is stamped {} but its trade of {} is priced at the quote stamped {} (inside the latency window after {})".format(
+                            k, t_exec, tr["sym"], t_best, steps[k]), op=k, kind="stamped_before_its_quote")
+                        break
             if violations:
                 break
         if violations:
